@@ -7,6 +7,12 @@ Open Scope Z_scope.
 
 Definition D := default_settings.
 
+(* A refutation that concerns a defect for which a repair is proposed: it is stated for the tree as
+   generated -- if the repair flag regenerated from the tree is set the statement is vacuous (and the
+   conditional positive lemmas `*_repaired` of Proofs/C03_Negotiate.v apply instead). *)
+Definition refuted_unless (repaired : bool) (P : Prop) : Prop := if repaired then True else P.
+Ltac by_flag f tac := unfold refuted_unless, f; cbv iota; first [exact I | tac].
+
 (* copy of D with the version / MAC part replaced (what validate() returns for a lower maxVersion) *)
 Definition with_versions (st : Settings) (lo hi : Z) (vs macs : list Z) : Settings :=
   {| st_minV := lo; st_maxV := hi; st_versions := vs; st_ciphers := st_ciphers st; st_macs := macs;
@@ -69,19 +75,23 @@ Proof. eexists. split; [vm_compute; reflexivity|vm_compute; reflexivity]. Qed.
 (* 2. a client that demands 3072-bit keys completes an anonymous DH handshake over 2048 bits *)
 Definition cl_dh3072 := client_of (with_keys (with_versions D 1 3 [3; 2; 1] (st_macs D)) [7] [] 3072 8193) 2 None None.
 Definition srv_anon := server_of (with_keys D [7] (st_dhgroups D) 1023 8193) None true false None.
-Lemma witness_dh_size :
-  exists o b, negotiate cl_dh3072 srv_anon = Ok o /\ si_dh_bits (vw_secret (oc_client o)) = Some b /\
-              b < st_min_key (cl_set cl_dh3072).
-Proof. eexists. eexists. split; [vm_compute; reflexivity|]. split; [vm_compute; reflexivity|vm_compute; reflexivity]. Qed.
+Lemma witness_dh_size : refuted_unless fix_dh_size
+  (exists o b, negotiate cl_dh3072 srv_anon = Ok o /\ si_dh_bits (vw_secret (oc_client o)) = Some b /\
+               b < st_min_key (cl_set cl_dh3072)).
+Proof.
+  by_flag fix_dh_size ltac:(eexists; eexists; split; [vm_compute; reflexivity|]; split; [vm_compute; reflexivity|vm_compute; reflexivity]).
+Qed.
 
 (* 3. a TLS 1.3 server that demands 4096-bit keys records a 1024-bit RSA client certificate *)
 Definition srv_min4096 := server_of (with_keys D (st_kxs D) (st_dhgroups D) 4096 8193) (Some ecdsa256) false true None.
 Definition cl_rsa1024 := client_of D 0 (Some rsa1024) None.
-Lemma witness_client_key_tls13 :
-  exists o, negotiate cl_rsa1024 srv_min4096 = Ok o /\
-            vw_client_chain (oc_server o) = Some (ct_id rsa1024) /\ oc_client_cert o = Some rsa1024 /\
-            ct_bits rsa1024 < st_min_key (sv_set srv_min4096).
-Proof. eexists. split; [vm_compute; reflexivity|]. repeat split; vm_compute; reflexivity. Qed.
+Lemma witness_client_key_tls13 : refuted_unless fix_tls13_client_key
+  (exists o, negotiate cl_rsa1024 srv_min4096 = Ok o /\
+             vw_client_chain (oc_server o) = Some (ct_id rsa1024) /\ oc_client_cert o = Some rsa1024 /\
+             ct_bits rsa1024 < st_min_key (sv_set srv_min4096)).
+Proof.
+  by_flag fix_tls13_client_key ltac:(eexists; split; [vm_compute; reflexivity|]; repeat split; vm_compute; reflexivity).
+Qed.
 
 (* 4. TLS 1.3: the client stores its configured chain although the server never asked for it *)
 Lemma witness_client_chain_view :
@@ -96,13 +106,20 @@ Lemma witness_server_chain_view :
             vw_server_chain (oc_client o) <> vw_server_chain (oc_server o).
 Proof. eexists. split; [vm_compute; reflexivity|vm_compute; discriminate]. Qed.
 
-(* 6. a handshake that ends without any alert: a server with an Ed25519 certificate facing a client
-      limited to TLS 1.1 dies with a TypeError while signing ServerKeyExchange *)
-Definition ed25519_cert := {| ct_alg := 3; ct_bits := 253; ct_curve := 0; ct_id := 5; ct_small_key := false |}.
-Lemma witness_no_alert :
-  negotiate (client_of (with_versions D 1 2 [2; 1] [0]) 0 None None)
-            (server_of D (Some ed25519_cert) false false None) = Err (OtherExn 2900).
-Proof. vm_compute. reflexivity. Qed.
+(* 6. a handshake that ends without any alert: settings that validate() accepts (DSA hashes only, TLS 1.3
+      only) leave no signature algorithm to advertise and the client dies on `assert sig_list` *)
+Definition with_sigs (st : Settings) (lo : Z) (vs rsa ecdsa more : list Z) : Settings :=
+  {| st_minV := lo; st_maxV := st_maxV st; st_versions := vs; st_ciphers := st_ciphers st;
+     st_macs := st_macs st; st_kxs := st_kxs st; st_curves := st_curves st; st_dhgroups := st_dhgroups st;
+     st_shares := st_shares st; st_default_curve := st_default_curve st; st_rsa_hashes := rsa;
+     st_rsa_schemes := st_rsa_schemes st; st_ecdsa_hashes := ecdsa;
+     st_dsa_hashes := st_dsa_hashes st; st_more_sigs := more; st_min_key := st_min_key st;
+     st_max_key := st_max_key st; st_etm := st_etm st; st_ems := st_ems st; st_req_ems := st_req_ems st;
+     st_rsl := st_rsl st; st_psks := st_psks st; st_psk_modes := st_psk_modes st; st_dh_bits := st_dh_bits st |}.
+Definition cl_dsa_only := client_of (with_sigs D 4 [4] [] [] []) 0 None None.
+Lemma witness_no_alert : refuted_unless fix_sigalg_assert
+  (negotiate cl_dsa_only (server_of D (Some rsa2048) false false None) = Err (OtherExn 1900)).
+Proof. by_flag fix_sigalg_assert ltac:(vm_compute; reflexivity). Qed.
 
 (* ALPN offered to a TLS 1.3 server that has none configured: ignored, the handshake completes *)
 Example alpn_ignored_without_server_list :
@@ -170,25 +187,27 @@ Proof.
   exists (client_of D 0 None None), srv_max11. exact witness_server_version.
 Qed.
 
-Lemma selected_within_both_refuted_dh_size_pf :
-  exists c s o b, negotiate c s = Ok o /\ si_dh_bits (vw_secret (oc_client o)) = Some b /\
-                  b < st_min_key (cl_set c).
+Lemma selected_within_both_refuted_dh_size_pf : refuted_unless fix_dh_size
+  (exists c s o b, negotiate c s = Ok o /\ si_dh_bits (vw_secret (oc_client o)) = Some b /\
+                   b < st_min_key (cl_set c)).
 Proof.
-  exists cl_dh3072, srv_anon. exact witness_dh_size.
+  pose proof witness_dh_size as W. unfold refuted_unless in *. destruct fix_dh_size; [exact I|].
+  exists cl_dh3072, srv_anon. exact W.
 Qed.
 
-Lemma selected_within_both_refuted_client_key_tls13_pf :
-  exists c s o mc, negotiate c s = Ok o /\ vw_client_chain (oc_server o) = Some (ct_id mc) /\
-                   oc_client_cert o = Some mc /\ ct_bits mc < st_min_key (sv_set s).
+Lemma selected_within_both_refuted_client_key_tls13_pf : refuted_unless fix_tls13_client_key
+  (exists c s o mc, negotiate c s = Ok o /\ vw_client_chain (oc_server o) = Some (ct_id mc) /\
+                    oc_client_cert o = Some mc /\ ct_bits mc < st_min_key (sv_set s)).
 Proof.
-  destruct witness_client_key_tls13 as [o H]. exists cl_rsa1024, srv_min4096, o, rsa1024. exact H.
+  pose proof witness_client_key_tls13 as W. unfold refuted_unless in *. destruct fix_tls13_client_key; [exact I|].
+  destruct W as [o H]. exists cl_rsa1024, srv_min4096, o, rsa1024. exact H.
 Qed.
 
-Lemma failure_is_alert_refuted_pf :
-  exists c s, negotiate c s = Err (OtherExn 2900).
+Lemma failure_is_alert_refuted_pf : refuted_unless fix_sigalg_assert
+  (exists c s, negotiate c s = Err (OtherExn 1900)).
 Proof.
-  exists (client_of (with_versions D 1 2 [2; 1] [0]) 0 None None), (server_of D (Some ed25519_cert) false false None).
-  exact witness_no_alert.
+  pose proof witness_no_alert as W. unfold refuted_unless in *. destruct fix_sigalg_assert; [exact I|].
+  exists cl_dsa_only, (server_of D (Some rsa2048) false false None). exact W.
 Qed.
 
 Lemma default_pair_pf : exists o, negotiate (client_of D 0 None None) (server_of D (Some rsa2048) false false None) = Ok o
